@@ -89,6 +89,12 @@ def run_case(case):
     from mpilot.program import Program
 
     out = {}
+    if case.get("preload"):
+        # history: another model (e.g. an EEMS 2.0 file) was loaded in this process before
+        try:
+            Program.from_source(case["preload"], libraries=("mpilot.libraries.eems.csv", "mpilot.libraries.eems.basic", "mpilot.libraries.eems.fuzzy"))
+        except Exception as e:
+            out["preload_error"] = "%s: %s" % (type(e).__name__, str(e)[:120])
     try:
         p1 = build(case)
     except Exception as e:
